@@ -411,5 +411,5 @@ func (self *RemoteJobManager) reattach(md *Metadata) {
 	if self.jobSem == nil {
 		return
 	}
-	self.jobSem.Acquire(md, true)
+	self.jobSem.Reattach(md)
 }
